@@ -1,4 +1,4 @@
 INIT Init
 NEXT Next
-CONSTANT Pairwise = FALSE
+CONSTANT Pairwise = TRUE
 INVARIANT Table
